@@ -8,7 +8,7 @@ from . import _land as LD
 
 FUZZ = ["definition"]
 RULE = ("Diagrams of 1..8 bars of positive length on a shared lattice (equal births / deaths, touching, nested, overlapping bars, collisions of "
-        "sweep residuals with input bars), ulp-perturbed lattice points and arbitrary floats, 13 decimal scales, generated input order, optional "
+        "sweep residuals with input bars), ulp-perturbed lattice points and arbitrary floats, 20 decimal scales (1e-100 .. 1e100), generated input order, optional "
         "trailing (b, inf) bar, generated hom_deg. Equality with the definition is decided EXACTLY per input: both sides are piecewise linear and "
         "are compared on all candidate breakpoints {b_i, d_i, (b_i+d_j)/2}, the returned abscissae, all midpoints and two outside points.")
 ASSUMPTIONS = [
@@ -21,7 +21,7 @@ ASSUMPTIONS = [
 
 @st.composite
 def s_case(draw, dup_bias=False, max_size=8):
-    fam = draw(LD.bar_family(1, max_size, dup_bias=dup_bias))
+    fam = draw(LD.bar_family(1, max_size, dup_bias=dup_bias, extra_exponents=LD.EXTREME))
     bars = fam["dgms"][0]
     case = {"fam": fam, "perm": draw(permutation_of(len(bars))), "hom_deg": draw(st.sampled_from([0, 0, 0, 1, 2])),
             "pad": draw(st.booleans()), "trailing_inf": draw(st.sampled_from([None, None, None, 0.0, -1.0, 2.5]))}
